@@ -627,12 +627,12 @@ def generic_monitor(records, pid="C10"):
         for o in outs:
             if o[0] == "def":
                 if o[1] in fired:
-                    return ("C06_exactly_once", "Deferred %d fired twice" % o[1], idx)
+                    return ("C06_exactly_once" if pid == "C06" else "C10_reentrant_reachable", "Deferred %d fired twice" % o[1], idx)
                 fired[o[1]] = o[2]
             elif o[0] == "write" and o[1] in fired:
                 return ("C06_nothing_after_fired" if pid == "C06" else "C10_never_resent", "request of handle %d written after its Deferred fired (code %d: 2 None, 3 cancelled, 4 closed)" % (o[1], fired[o[1]]), idx)
             elif o == ("raised", 99):
-                return ("C06_exactly_once", "an exception escaped that no legal behaviour includes", idx)
+                return ("C06_exactly_once" if pid == "C06" else "C10_reentrant_reachable", "an exception escaped that no legal behaviour includes", idx)
     return None
 
 
